@@ -12,12 +12,14 @@ until past the heartbeat bound (table must be empty, one disconnect each).
 import itertools
 
 from vf import report
-from vf.explore import parallel
+from vf.explore import digest, parallel
 from vf.vworld import base, peer
 from vf.checks.c12_admission import snapshot, RejectOnHeader
 
 INTERVAL = 10.0
 TIMEOUT = 1.0
+_DIGESTS = set()
+_STEPS = [0]
 ACTIONS = ['open', 'open_rej', 'open_ws', 'close_post', 'disconnect_api', 'ws_close', 'vanish',
            'poll', 'upgrade', 'half_upgrade', 'save', 'tick', 'bad_post']
 
@@ -156,6 +158,7 @@ def run_history(impl, hist, out):
         for a in hist:
             if not apply_action(w, ss, rejected, a):
                 return None
+        _DIGESTS.add(digest.world_digest(w))
         # --- isolation of user data
         for s in ss:
             if s.ended:
@@ -193,19 +196,22 @@ def run_history(impl, hist, out):
         api_probe(w, impl, [s.sid for s in ss][:1], 'reaped', out, hist)
         return True
     finally:
+        _STEPS[0] += w.nstep
         w.teardown()
 
 
 def _work(chunk):
     out = []
     n = 0
+    _DIGESTS.clear()
+    _STEPS[0] = 0
     for impl, hist in chunk:
         try:
             if run_history(impl, hist, out):
                 n += 1
         except report.Livelock as e:
             out.append(report.livelock_violation(impl, e, {'impl': impl, 'history': list(hist)}))
-    return [v.to_json() for v in out[:300]], n, len(out)
+    return [v.to_json() for v in out[:300]], n, len(out), sorted(_DIGESTS), _STEPS[0]
 
 
 def run(ctx):
@@ -226,20 +232,24 @@ def run(ctx):
     res = parallel.pmap_chunks(_work, parallel.split(jobs, ctx.workers * 8), ctx.workers, ctx.seed, maxtasks=4)
     n = 0
     nv = 0
-    for vs, k, m in res:
+    digs = set()
+    steps = 0
+    for vs, k, m, dg, stp in res:
         n += k
         nv += m
+        digs |= set(dg)
+        steps += stp
         for v in vs:
             rep.add(report.Violation.from_json(v))
     rep.coverage = {
-        'states': n, 'transitions': n * (depth + 12), 'traces_validated_against_impl': n,
+        'states': len(digs), 'transitions': steps, 'traces_validated_against_impl': n,
         'samples': [{'history': ['open', 'half_upgrade', 'vanish']}, {'history': ['open', 'save', 'open', 'disconnect_api']},
                     {'history': ['open_rej', 'open_ws', 'close_post']}],
         'evaluations': n, 'distinct_nontrivial': n,
         'rule': 'every enabled history of <= %d actions over %r (first action an open or tick; histories whose next action is not '
                 'enabled are pruned) plus one complete seed-chosen slice one level deeper; each followed by API probes with '
                 'never-issued / rejected / disconnected ids, two monitor sweeps and silence past the heartbeat bound; both servers. '
-                'states = enabled histories executed; transitions estimated as history length + 12 probe/epilogue steps.' % (depth, ACTIONS),
+                'states = distinct canonical digests of the world reached by the histories (before the epilogue); transitions = scheduler steps executed; traces = enabled histories.' % (depth, ACTIONS),
         'exhaustive': True, 'bound_completed': depth, 'violating_cases_total': nv,
     }
     rep.assumptions = [
